@@ -68,6 +68,10 @@ MUTATIONS = {
          'C++ Traverser no longer recognises block comments (CPP)'),
     ],
     'C06': [
+        ('py_underscore_is_word_char', PY,
+         '        if (idx > 0 and s[idx - 1].isalnum() or\n            idx + l < len(s) and s[idx + l].isalnum()):\n          continue\n', "        if (idx > 0 and (s[idx - 1].isalnum() or s[idx - 1] == '_') or\n            idx + l < len(s) and (s[idx + l].isalnum() or s[idx + l] == '_')):\n          continue\n",
+         'PY SplitRaw counts _ as a word character in the word-boundary test '
+         'of alphanumeric separators; CPP still uses alnum only (one-sided)'),
         ('strip_no_restrip_between_layers', PY,
          "  while True:\n    s = StripSpaces(s)\n    if (len(s) >= 2 and s[0] == '(' and s[-1] == ')' and\n        IsWhole(s[1:-1])):\n      s = s[1:-1]\n    else:\n      return s\n", "  s = StripSpaces(s)\n  while (len(s) >= 2 and s[0] == '(' and s[-1] == ')' and\n         IsWhole(s[1:-1])):\n    s = s[1:-1]\n  return StripSpaces(s)\n",
          'Strip strips blanks once, peels parentheses in a loop, strips once '
